@@ -176,7 +176,7 @@ func (c cctpWrap) DepositForBurn(ctx context.Context, m *cctptypes.MsgDepositFor
 func (c cctpWrap) DepositForBurnWithCaller(ctx context.Context, m *cctptypes.MsgDepositForBurnWithCaller) (*cctptypes.MsgDepositForBurnWithCallerResponse, error) {
 	c.i.reqs = append(c.i.reqs, Req{Route: "CCTP", WithCaller: true, From: c.i.w.nameOfAddr(m.From),
 		Amt: capInt(m.Amount), Denom: m.BurnToken, Dom: int64(m.DestinationDomain),
-		Mint: c.i.w.nameOfBytes(m.MintRecipient), Caller: c.i.w.nameOfBytes(m.DestinationCaller),
+		Mint: c.i.w.nameOfBytes(m.MintRecipient), Caller: c.i.w.nameOfCaller(m.DestinationCaller),
 		Tok: "NONE", Rcp: "NONE", Hook: "NONE", Meta: "NONE", To: "NONE", Mfd: "NONE", Full: true})
 	if c.i.fail("cctpBurn") {
 		return nil, errInjected
@@ -186,7 +186,7 @@ func (c cctpWrap) DepositForBurnWithCaller(ctx context.Context, m *cctptypes.Msg
 
 func (c cctpWrap) ReplaceDepositForBurn(ctx context.Context, m *cctptypes.MsgReplaceDepositForBurn) (*cctptypes.MsgReplaceDepositForBurnResponse, error) {
 	c.i.reqs = append(c.i.reqs, Req{Route: "CCTP_REPLACE", From: c.i.w.nameOfAddr(m.From),
-		Mint: c.i.w.nameOfBytes(m.NewMintRecipient), Caller: c.i.w.nameOfBytes(m.NewDestinationCaller),
+		Mint: c.i.w.nameOfBytes(m.NewMintRecipient), Caller: c.i.w.nameOfCaller(m.NewDestinationCaller),
 		Tok: string(m.OriginalMessage), Rcp: string(m.OriginalAttestation), Hook: "NONE", Meta: "NONE", To: "NONE", Denom: "NONE", Mfd: "NONE", Full: true})
 	if c.i.fail("cctpReplace") {
 		return nil, errInjected
